@@ -31,7 +31,10 @@ def run(prop, tier, extra=None):
         progs.append(cd.gen_program(rnd, rnd.choice(c['depths']), focus=focus))
     if extra:
         progs += extra(rnd, tier)
-    cd.run_programs(out, progs, c['enforce'], prop, prop=c['prop'])
+    # spec -> code: every program the bounded model emits is replayed
+    mcp = cd.mc_programs(out, prop, tier)
+    out.cov['programs_emitted_by_tlc'] = len(mcp)
+    cd.run_programs(out, mcp + progs, c['enforce'], prop, prop=c['prop'])
     out.cov['rule'] = ('seeded random programs over templates T1-T5 (depth %s,'
                        ' focus %s); a case is non-trivial when at least one '
                        'call returned a new file; distinct = template + '
